@@ -91,6 +91,15 @@ def main(ctx, replay=None):
         if k not in seen:
             seen.add(k)
             uniq.append(c)
+    # for every interpolator: its configuration with the DOCUMENTED default order on the fewest sampled volumes, the order left to the
+    # packaged defaults (what `order` is when the user says nothing is part of the documented interface)
+    forced = []
+    for it in sorted({c["interp"] for c in allc}):
+        cand = [c for c in allc if c["interp"] == it and c["order"] == DEFAULT_MG["order"]]
+        if cand:
+            c0 = dict(min(cand, key=lambda c: (c["nv"], str(sorted(c.items())))), _force_omit_order=True)
+            forced.append(c0)
+    uniq = forced + uniq
     # every interpolator and every system must be present even in the quick sample
     if len(uniq) < 20:
         raise MachineryError("too few configurations from the specification")
@@ -108,7 +117,7 @@ def main(ctx, replay=None):
             nt, qorder, vratio = int(rng.choice(NTS)), int(rng.choice(QORDERS)), float(rng.choice(VRATIOS))
             settings = {"T_MIN": tmin, "DT": dt, "NT": nt, "NTV": 9, "order": qorder, "volume_ratio": vratio}
             kw = dict(nv=int(c["nv"]), lattice=bool(c["lattice"]), interpolator=c["interp"], order=int(c["order"]), settings=settings)
-            ds = free_dataset(rng, extra_shear=int(rng.integers(2, 10)), **kw) if c["system"] == "none" else system_dataset(rng, exports, c["system"], **kw)
+            ds = free_dataset(rng, extra_shear=int(rng.integers(2, 10)), **kw) if c["system"] == "none" else system_dataset(rng, exports, c["system"], minimal=bool(n % 4 == 1), **kw)
             if c["system"] == "none" and n % 3 == 0:
                 # a listed component that vanishes identically (a table that spells out a zero column, no symmetry filling to remove it)
                 zk = [k for k in ds.keys if k[0] != k[1] and not (k[0] <= 3 and k[1] <= 3)]
@@ -116,6 +125,12 @@ def main(ctx, replay=None):
                     ds.polys[zk[int(rng.integers(0, len(zk)))]] = (0.0, 0.0, 0.0, 0.0)
             # leave to the packaged defaults what equals them (half of the time): the settings file then has a partial mode_gamma group
             ds.omit = {f for f, key in (("interpolator", "interp"), ("order", "order")) if c[key] == DEFAULT_MG[key] and rng.random() < 0.5}
+            if c["system"] != "none" and n % 4 == 1:
+                # the documented flags of the symmetry group, set on consistent, sufficient data (where they change nothing); the table
+                # lists a sufficient proper subset of the components, the filling supplies the rest
+                ds.symmetry_flags = {"ignore_rank": bool(n % 8 == 1), "ignore_residuals": True}
+            if c.get("_force_omit_order"):
+                ds.omit = ds.omit | {"order"}
             d = wd.sub(f"c{n}")
             case = {k: c[k] for k in ("interp", "order", "nv", "system", "tmin", "dt", "lattice")}
             case["left_to_defaults"] = sorted(ds.omit)
